@@ -53,7 +53,7 @@ type {{$correctableOut}} struct {
 // ensure that a reply is available.
 func (c *{{$correctableOut}}) Get() (*{{$customOut}}, int, error) {
 	resp, level, err := c.Correctable.Get()
-	if err != nil {
+	if err != nil || resp == nil {
 		return nil, level, err
 	}
 	return resp.(*{{$customOut}}), level, err
